@@ -149,8 +149,17 @@ create_thread_dir(int tid)
 {
 	/* The procdir must have been created earlier */
 	mkdir_thread(rthread.thdir, rproc.procdir, tid);
-	if (rproc.move_to_final)
+	if (rproc.move_to_final) {
 		mkdir_thread(rthread.thdir_final, rproc.procdir_final, tid);
+
+		/* A stream.json left in the final directory by an earlier run
+		 * would mark as finished whatever is being copied next to it */
+		char path[PATH_MAX];
+		if (snprintf(path, PATH_MAX, "%s/stream.json", rthread.thdir_final) >= PATH_MAX)
+			die("path too long: %s/stream.json", rthread.thdir_final);
+		if (remove(path) != 0 && errno != ENOENT)
+			die("cannot remove stale %s:", path);
+	}
 }
 
 static void
